@@ -11,6 +11,11 @@ from gevent.event import AsyncResult
 import slimta.queue as Q
 import slimta.queue.dict as QD
 import slimta.bounce as B
+import slimta.diskstorage            # noqa: imported up front so that World can rebind their uuid/time
+import slimta.redisstorage           # noqa
+import slimta.cloudstorage           # noqa
+import slimta.queue.proxy            # noqa
+import slimta.policy.headers         # noqa
 from slimta.queue import Queue, QueueStorage, QueueError
 from slimta.queue.dict import DictStorage
 from slimta.relay import Relay, TransientRelayError, PermanentRelayError
@@ -110,6 +115,7 @@ class MonitoredStore(QueueStorage):
 
     def increment_attempts(self, id):
         r = self._call('increment_attempts', id, self.inner.increment_attempts, id)
+        self.qw.last_incr[gevent.getcurrent()] = self.qw.sid(id)
         self.qw.ev('store', 'increment_attempts', self.qw.sid(id), r)
         return r
 
@@ -175,6 +181,7 @@ class QueueWorld(object):
         self.slow_ops = set(cfg.get('slow_ops', ()))
         self.harness_wait = cfg.get('harness_wait', False)
         self.waiters = []
+        self.last_incr = {}
         self.envs = []                 # keep envelope objects alive (id() stability)
         self.env_qid = {}              # id(envelope object) -> qid
         self.ledger = {}               # qid -> dict(sender, original, outstanding(list), delivered, failed{rcpt:reply}, bounce(bool), removed, attempts)
@@ -381,7 +388,7 @@ class QueueWorld(object):
             if cfg.get('bounce_queue') == 'separate':
                 bq = RecordingBounceQueue(self)
             factory = self.make_bounce_factory(cfg.get('bounce', 'default'))
-            q = Queue(store, relay, backoff=make_backoff(cfg.get('backoff', 'never')),
+            q = Queue(store, relay, backoff=self.monitored_backoff(make_backoff(cfg.get('backoff', 'never'))),
                       bounce_factory=factory, bounce_queue=bq,
                       store_pool=cfg.get('store_pool'), relay_pool=cfg.get('relay_pool'))
             self.q = q
@@ -419,6 +426,23 @@ class QueueWorld(object):
             self.final_check()
             self.errors = [e for e in w.errors() if e != ('RuntimeError', 'boom')]
             return self.observation()
+
+    def monitored_backoff(self, fn):
+        """The backoff policy decides when retries stop: a None answer is the moment the recipients of
+        that envelope become failed for good (retries exhausted)."""
+        def backoff(envelope, attempts):
+            wait = fn(envelope, attempts)
+            self.ev('backoff', tuple(envelope.recipients), attempts, wait)
+            if wait is None:
+                # Queue._retry_later calls increment_attempts(id) and then backoff() in the same greenlet
+                qid = self.last_incr.get(gevent.getcurrent())
+                led = self.ledger.get(qid)
+                if led is not None:
+                    for r in list(envelope.recipients):
+                        if r in led['outstanding']:
+                            self._settle(led, r, 'exhausted', led.get('last_temp', {}).get(r, ('450', None)))
+            return wait
+        return backoff
 
     def do_flush(self):
         rec = {'call': self.world.now, 'ret': None, 'steps_at_call': self.world.loop.steps, 'steps_at_ret': None,
@@ -507,9 +531,14 @@ class QueueWorld(object):
         if b == 'cloud':
             return set(self.objstore.objects)
 
+    def pools_full(self):
+        rp, sp = getattr(self.q, 'relay_pool', None), getattr(self.q, 'store_pool', None)
+        return bool(rp is not None and sp is not None and rp.free_count() == 0 and sp.free_count() == 0)
+
     def final_check(self):
         """Obligations on the quiescent terminal state (nothing can happen any more)."""
         stored = self.stored_ids()
+        self.pool_deadlock = self.pools_full()
         for qid, led in sorted(self.ledger.items()):
             if led['outstanding']:
                 where = 'still in storage' if qid in stored else 'gone from storage'
